@@ -1,12 +1,224 @@
-(* C18 — configured limits hold and never hurt what was already admitted. (work in progress) *)
-From AM Require Import Base.Prelude Model.Bucket Model.StoreLimit.
+(* C18 — Configured limits hold and never hurt what was already admitted.
+   Only statements here; proofs are `exact <lemma>` from Proofs/{Bucket,StoreLimit,SilenceLimits,Semaphore}Proofs.v.
+   Models: Model/Bucket.v (limit.Bucket with the container/heap array), Model/StoreLimit.v (mem.Put / store.Set /
+   store.GC), Model/SilenceLimits.v (the limit checks of Silences.Set), Model/Semaphore.v (api limitHandler).
+   The models are those of the tree AFTER the repair of Bucket.IsStale (fix commit 8e618c1); the rule of the pinned
+   commit is kept as `is_stale_last_slot` for the witness at the end. *)
+From AM Require Import Base.Prelude Model.Bucket Model.StoreLimit Model.SilenceLimits Model.Semaphore.
+From AM Require Import Proofs.BucketProofs Proofs.StoreLimitProofs Proofs.SilenceLimitsProofs Proofs.SemaphoreProofs.
 
-(* the code at the pinned commit (IsStale reads the last array slot): 4 unexpired alerts under limit 3 *)
-Definition f5_alert (i : Z) (ends : Z) := mkAlert i "A" 1000 ends 1000 false.
-Definition f5_hist : list (Z * op) :=
-  [(1000, OPut (f5_alert 1 1030)); (1000, OPut (f5_alert 2 1010)); (1000, OPut (f5_alert 3 1020));
-   (1025, OGC);
-   (1026, OPut (f5_alert 4 1100)); (1026, OPut (f5_alert 5 1100)); (1026, OPut (f5_alert 6 1100))].
-Theorem c18_last_slot_stale_refuted :
-  exists h, (3 < Z.of_nat (count_unexpired (fst (run_with is_stale_last_slot 3 empty_store h)) "A" 1026)).
-Proof. exists f5_hist. vm_compute. reflexivity. Qed.
+(* ================= limit.Bucket: the heap ================= *)
+
+(* heap invariant = index coherence (item.index is the slot) + heap order on the whole array;
+   preserved by heap.Push, heap.Pop and heap.Fix after a priority change, which only add / remove the root /
+   permute the items *)
+Theorem c18_heap_push l v p :
+  heap l -> heap (hpush l v p) /\ entries (hpush l v p) ≡ₚ entries l ++ [(v, p)] /\ length (hpush l v p) = S (length l).
+Proof. exact (hpush_facts l v p). Qed.
+
+Theorem c18_heap_pop l r :
+  heap l -> l !! 0%nat = Some r ->
+  heap (hpop l) /\ (it_val r, it_prio r) :: entries (hpop l) ≡ₚ entries l /\ S (length (hpop l)) = length l.
+Proof. exact (hpop_facts l r). Qed.
+
+Theorem c18_heap_fix l pos x p :
+  heap l -> l !! pos = Some x ->
+  let l1 := <[pos := set_prio x p]> l in
+  heap (fix_at l1 pos) /\ entries (fix_at l1 pos) ≡ₚ entries l1 /\ length (fix_at l1 pos) = length l.
+Proof. exact (fix_facts l pos x p). Qed.
+
+(* the index field used by update/Fix is the slot of the item and is in range: no slice access can panic *)
+Theorem c18_fix_index_in_range l pos x : coh l -> l !! pos = Some x -> it_idx x = pos /\ (it_idx x < length l)%nat.
+Proof. exact (fix_in_range l pos x). Qed.
+
+(* the root is a minimum *)
+Theorem c18_root_is_minimum l k : heap l -> (k < length l)%nat -> pr l 0 <= pr l k.
+Proof. intros [_ H]. exact (hon_root_min l (length l) H k). Qed.
+
+Theorem c18_new_bucket_inv cap : binv (new_bucket cap).
+Proof. exact (binv_new cap). Qed.
+
+(* Upsert keeps the bucket invariant (heap + distinct values + at most `capacity` items) and refines the
+   finite-map spec: known -> priority updated; room -> added; full -> a minimum k is evicted iff it is expired,
+   otherwise the call is refused and the bucket is unchanged *)
+Theorem c18_upsert_refines b v p now :
+  binv b -> 1 <= b_cap b ->
+  let b' := fst (upsert b v p now) in
+  let ok := snd (upsert b v p now) in
+  binv b' /\ b_cap b' = b_cap b /\
+  match abs b !! v with
+  | Some _ => ok = true /\ abs b' = <[v := p]> (abs b)
+  | None =>
+      if Z.of_nat (size (abs b)) <? b_cap b then ok = true /\ abs b' = <[v := p]> (abs b)
+      else exists k q, abs b !! k = Some q /\ (forall k' q', abs b !! k' = Some q' -> q <= q') /\
+                       if q <? now then ok = true /\ abs b' = <[v := p]> (delete k (abs b))
+                       else ok = false /\ b' = b
+  end.
+Proof. exact (upsert_refines b v p now). Qed.
+
+(* IsStale (repaired): true exactly when every tracked item is expired *)
+Theorem c18_is_stale_exact b now :
+  NoDup (map it_val (b_items b)) -> (is_stale b now = true <-> forall k q, abs b !! k = Some q -> q < now).
+Proof. exact (is_stale_spec b now). Qed.
+
+(* ================= per-alert-name limit in the alert store ================= *)
+
+(* never_exceeds: for every limit N >= 1 and EVERY history of Puts (admissions, heartbeats, re-sends, resolutions) and
+   GC runs at non-decreasing instants, the number of distinct alerts of one name in the store that have not ended
+   (EndsAt >= t; this includes every alert still firing at t) is at most N — at the end of the history and at
+   every later instant *)
+Theorem c18_never_exceeds N h t0 name t :
+  1 <= N -> mono t0 h -> last_time t0 h <= t ->
+  Z.of_nat (count_unexpired (fst (run N empty_store h)) name t) <= N.
+Proof. exact (never_exceeds N h t0 name t). Qed.
+
+(* an alert that is not resolved (model.Alert.ResolvedAt) and has a non-zero end is one of those counted *)
+Theorem c18_firing_is_counted a t : a_ends a <> 0 -> resolved a t = false -> t <= a_ends a.
+Proof. exact (firing_counted a t). Qed.
+
+(* re-sends of admitted alerts are always accepted (and not counted as limited) *)
+Theorem c18_resend_always_accepted N h t0 now x a :
+  1 <= N -> mono t0 h -> last_time t0 h <= now ->
+  let s := fst (run N empty_store h) in
+  s_alerts s !! a_fp a = Some x -> now <= a_ends x -> a_name x = a_name a ->
+  snd (put1 N s a now) = true /\ s_limited (fst (put1 N s a now)) = s_limited s.
+Proof. exact (resend_always_accepted N h t0 now x a). Qed.
+
+(* room is made only by expiry *)
+Theorem c18_room_only_by_expiry N s t now o name fp q :
+  1 <= N -> SI N s t -> t <= now ->
+  tracked_in s name fp = Some q -> tracked_in (fst (step N s now o)) name fp = None -> q < now.
+Proof. exact (room_only_by_expiry N s t now o name fp q). Qed.
+
+(* ... in every reachable state (SI is the invariant of all histories) *)
+Theorem c18_reachable_invariant N h s t : 1 <= N -> SI N s t -> mono t h -> SI N (fst (run N s h)) (last_time t h).
+Proof. intros HN Hs Hm. exact (run_SI N h s t HN Hs Hm). Qed.
+
+(* the limit never bites below N: a Put is refused only when the name's bucket tracks N alerts none of which has ended *)
+Theorem c18_refused_only_when_full N s t now a :
+  1 <= N -> SI N s t -> t <= now -> snd (put1 N s a now) = false ->
+  exists b, s_limits s !! a_name (put_alert s a now) = Some b /\ N <= Z.of_nat (size (abs b)) /\
+            forall w q, abs b !! w = Some q -> now <= q.
+Proof. exact (refused_only_when_full N s t now a). Qed.
+
+(* every refusal is reported (alertmanager_alerts_limited_total) and changes no stored alert; an accepted Put
+   stores the alert and does not count *)
+Theorem c18_alert_refusal_counted N s a now :
+  snd (put1 N s a now) = false ->
+  s_limited (fst (put1 N s a now)) = S (s_limited s) /\ s_alerts (fst (put1 N s a now)) = s_alerts s.
+Proof. exact (refusal_counted N s a now). Qed.
+Theorem c18_alert_accepted_stored N s a now :
+  snd (put1 N s a now) = true ->
+  s_limited (fst (put1 N s a now)) = s_limited s /\
+  s_alerts (fst (put1 N s a now)) !! a_fp (put_alert s a now) = Some (put_alert s a now).
+Proof. exact (accepted_stored N s a now). Qed.
+
+(* ================= silence limits (Silences.Set) ================= *)
+(* psize is proto.Size of the MeshSilence (any function); ret the retention; newid the fresh uuid *)
+
+(* the number of stored silences (expired included) never passes MaxSilences through Set, and grows by at most 1 *)
+Theorem c18_silence_count lim ret psize (st : gmap string msil) now s0 newid :
+  (forall k m, st !! k = Some m -> s_id (m_sil m) = k) ->
+  let st' := fst (set_sil lim ret psize st now s0 newid) in
+  (size st' <= S (size st))%nat /\
+  (0 < max_silences lim -> Z.of_nat (size st) <= max_silences lim -> Z.of_nat (size st') <= max_silences lim).
+Proof. exact (set_count lim ret psize st now s0 newid). Qed.
+
+(* every entry after a Set is what was there, or the submitted silence whose size passed MaxSilenceSizeBytes
+   (the call returned Ok with its id), or the expiry of the replaced silence (same id, matchers, content) *)
+Theorem c18_silence_size lim ret psize (st : gmap string msil) now s0 newid k m' :
+  (forall k m, st !! k = Some m -> s_id (m_sil m) = k) ->
+  fst (set_sil lim ret psize st now s0 newid) !! k = Some m' ->
+  st !! k = Some m' \/
+  (size_ok lim psize m' = true /\ snd (set_sil lim ret psize st now s0 newid) = Ok k) \/
+  (exists p, st !! k = Some p /\ expiry_of p m').
+Proof. exact (set_entries lim ret psize st now s0 newid k m'). Qed.
+
+Theorem c18_silence_size_ok_means lim psize m :
+  size_ok lim psize m = true <-> (0 < max_size lim -> psize m <= max_size lim).
+Proof. unfold size_ok. split; intros H; [intros H0|destruct (0 <? max_size lim) eqn:E; [|reflexivity]]; lia. Qed.
+
+(* a rejected create or edit returns an error and leaves the existing silences untouched — the limit checks come
+   before the replaced silence is expired *)
+Theorem c18_silence_refused_untouched lim ret psize (st : gmap string msil) now s0 newid c :
+  snd (set_sil lim ret psize st now s0 newid) = Err c -> fst (set_sil lim ret psize st now s0 newid) = st.
+Proof. exact (set_refused_untouched lim ret psize st now s0 newid c). Qed.
+
+(* never silent: a Set that returns Ok either did not need a new slot or the count limit left room *)
+Theorem c18_silence_count_refusal_reported lim ret psize (st : gmap string msil) now s0 newid id :
+  snd (set_sil lim ret psize st now s0 newid) = Ok id ->
+  (size (fst (set_sil lim ret psize st now s0 newid)) <= size st)%nat \/
+  ~ (0 < max_silences lim /\ max_silences lim < Z.of_nat (size st) + 1).
+Proof. exact (set_count_refusal_reported lim ret psize st now s0 newid id). Qed.
+
+(* the representation invariant assumed above is kept by Set *)
+Theorem c18_silence_ids lim ret psize (st : gmap string msil) now s0 newid :
+  (forall k m, st !! k = Some m -> s_id (m_sil m) = k) ->
+  forall k m, fst (set_sil lim ret psize st now s0 newid) !! k = Some m -> s_id (m_sil m) = k.
+Proof. exact (set_ids lim ret psize st now s0 newid). Qed.
+
+(* ================= GET concurrency semaphore ================= *)
+(* for every event sequence (arrivals of GETs/POSTs, completions, in any interleaving; request ids fresh): with n =
+   the number of GETs served and not completed when an event arrives, n <= c always; a GET is refused (503, counter
+   + 1) iff n = c and served iff n < c; a POST is always served and leaves the machine unchanged *)
+Theorem c18_get_semaphore c (pre : list ev) (e : ev) :
+  ids_fresh c sem0 (pre ++ [e]) ->
+  let s := fst (sem_run c sem0 pre) in
+  let n := length (inflight [] (trace c sem0 pre)) in
+  let v := snd (sem_step c s e) in
+  (n <= c)%nat /\
+  match e with
+  | Arrive _ GET => (v = Refused503 <-> n = c) /\ (v = Served <-> (n < c)%nat) /\
+                    exceeded (fst (sem_step c s e)) = (refusals (trace c sem0 pre) + if bool_decide (v = Refused503) then 1 else 0)%nat
+  | Arrive _ POST => v = Served /\ fst (sem_step c s e) = s
+  | Complete _ => v = Done
+  end.
+Proof. exact (get_semaphore c pre e). Qed.
+
+(* ================= the rule of the pinned commit (last array slot) violates never_exceeds ================= *)
+(* kept as the witness of finding F5 (corpus/C18/f5-stale-last-slot.json): with IsStale judged by the last array slot,
+   3 alerts ending +30,+10,+20, a GC at +25 and three more alerts give 4 unexpired alerts under N = 3 *)
+Theorem c18_last_array_slot_rule_exceeds :
+  exists N h t0 name, 1 <= N /\ mono t0 h /\
+    N < Z.of_nat (count_unexpired (fst (run_with is_stale_last_slot N empty_store h)) name (last_time t0 h)).
+Proof. exact last_slot_refuted. Qed.
+
+(* ---- non-vacuity ---- *)
+Definition ex_a (i ends : Z) := mkAlert i "A" 1000 ends 1000 false.
+Definition ex_h : list (Z * op) :=
+  [(1000, OPut (ex_a 1 1030)); (1000, OPut (ex_a 2 1010)); (1000, OPut (ex_a 3 1020)); (1005, OPut (ex_a 4 1100));
+   (1025, OGC); (1026, OPut (ex_a 4 1100)); (1026, OPut (ex_a 5 1100)); (1026, OPut (ex_a 6 1100)); (1026, OPut (ex_a 1 1200))].
+(* a monotone history with refusals, evictions and a GC: ends with exactly N = 3 unexpired alerts, 2 refusals;
+   the re-send of alert 1 at the end was accepted *)
+Example c18_never_exceeds_nonvacuous :
+  mono 0 ex_h /\ snd (run 3 empty_store ex_h) = [true; true; true; false; true; true; true; false; true] /\
+  count_unexpired (fst (run 3 empty_store ex_h)) "A" 1026 = 3%nat /\ s_limited (fst (run 3 empty_store ex_h)) = 2%nat.
+Proof. vm_compute. repeat split; discriminate. Qed.
+
+Example c18_bucket_inv_nonvacuous :
+  let b := fst (upsert (fst (upsert (fst (upsert (new_bucket 3) 1 30 0)) 2 10 0)) 3 20 0) in
+  inv_b b = true /\ entries (b_items b) = [(2, 10); (1, 30); (3, 20)] /\ is_stale b 25 = false /\ is_stale_last_slot b 25 = true.
+Proof. vm_compute. repeat split. Qed.
+
+Definition ex_sil (id : string) (ms body st en : Z) := mkSil id ms true body st en 0.
+Example c18_silence_nonvacuous :
+  let lim := mkLimits 1 100 in
+  let '(st1, r1) := set_sil lim 3600 (fun _ => 80) ∅ 1000 (ex_sil "" 1 10 1000 5000) "id1" in
+  let '(st2, r2) := set_sil lim 3600 (fun _ => 80) st1 1001 (ex_sil "" 2 10 1001 5000) "id2" in
+  let '(st3, r3) := set_sil lim 3600 (fun _ => 120) st1 1002 (ex_sil "id1" 1 90 1000 6000) "id3" in
+  r1 = Ok "id1" /\ r2 = Err "count" /\ r3 = Err "size" /\ size st1 = 1%nat /\
+  map_to_list st2 = map_to_list st1 /\ map_to_list st3 = map_to_list st1.
+Proof. vm_compute. repeat split. Qed.
+
+Example c18_semaphore_nonvacuous :
+  let es := [Arrive 1 GET; Arrive 2 GET; Arrive 3 GET; Arrive 4 POST; Complete 1; Arrive 5 GET] in
+  ids_fresh 2 sem0 es /\ snd (sem_run 2 sem0 es) = [Served; Served; Refused503; Served; Done; Served] /\
+  exceeded (fst (sem_run 2 sem0 es)) = 1%nat.
+Proof. vm_compute. repeat split; intros H; repeat (apply elem_of_cons in H as [H|H]; [discriminate|]); inversion H. Qed.
+
+Print Assumptions c18_never_exceeds.
+Print Assumptions c18_upsert_refines.
+Print Assumptions c18_resend_always_accepted.
+Print Assumptions c18_refused_only_when_full.
+Print Assumptions c18_silence_size.
+Print Assumptions c18_get_semaphore.
